@@ -154,6 +154,17 @@ func (r *schemaLoader) resolveRef(ref *Ref, target interface{}, basePath string)
 		if err != nil {
 			return err
 		}
+
+		// a typed root answers a pointer to an optional member that is not set with a nil pointer, map or slice,
+		// where the JSON form of the same root has no such member: the reference designates nothing
+		if rv := reflect.ValueOf(res); rv.IsValid() {
+			switch rv.Kind() { //nolint:exhaustive
+			case reflect.Ptr, reflect.Map, reflect.Slice, reflect.Interface:
+				if rv.IsNil() {
+					return fmt.Errorf("resolve ref: %q designates a member that is not set: %w", ref.String(), ErrSpec)
+				}
+			}
+		}
 	}
 	return swag.DynamicJSONToStruct(res, target)
 }
